@@ -17,6 +17,8 @@ type malformedCase struct {
 	verdict   ref.Verdict
 	cut       int // -1: no truncation
 	corrupted int
+	pre       []byte // bytes after corruption, before truncation (for cut-point enumeration)
+	baseDesc  string
 }
 
 var tagAlphabet = []byte{0x00, 0x01, 0x05, 0x07, 0x09, 0x10, 0x11, 0x12, 0x7f, 0x80, 0x8b, 0x8c, 0xff, 2, 3, 4, 6, 8, 10, 11, 12, 13, 14, 15}
@@ -120,6 +122,8 @@ func genMalformed(c *sim.Ctx, st *sim.Stream, depthMax int) *malformedCase {
 			c.Count("fault.fired.corruption")
 		}
 	}
+	mc.pre = append([]byte(nil), d...)
+	mc.baseDesc = mc.desc
 	if mode == 1 || mode == 3 {
 		// truncation: cut point biased to structural boundaries and inside the value
 		var cut int
